@@ -34,7 +34,8 @@ impl ConcurrentNodeIds {
             final(tmp).tv() == old(tmp).tv(),
             match r {
                 // A2: the tree-id space is not exhausted (id != u32::MAX needs fewer than 2^32 - 1 allocated tree ids)
-                Ok(id) => id != u32::MAX && !self.used0().contains(id) && !old(tmp).allocated().contains(id) && final(tmp).allocated() == old(tmp).allocated().insert(id),
+                Ok(id) => id != u32::MAX && !self.used0().contains(id) && !old(tmp).allocated().contains(id) && final(tmp).allocated() == old(tmp).allocated().insert(id)
+                    && final(tmp).allocated().len() <= 0x1_0000_0000,   // a set of u32
                 Err(e) => e == Error::DatabaseFull && final(tmp).allocated() == old(tmp).allocated(),
             }
     { unimplemented!() }
@@ -57,3 +58,39 @@ impl Dist {
     { unimplemented!() }
 }
 impl Leaf { pub open spec fn lv(&self) -> LeafV { LeafV { header: self.header.hv(), vector: self.vector.vv() } } }
+
+// ---- more stand-ins for make_tree_in_file ---------------------------------------------------------------------------
+pub struct ImmutableSubsetLeafs<'a> { pub subset: &'a RoaringBitmap, pub leafs: &'a ImmutableLeafs }
+impl<'a> ImmutableSubsetLeafs<'a> {
+    pub fn from_item_ids(leafs: &'a ImmutableLeafs, subset: &'a RoaringBitmap) -> (r: Self) ensures r.subset@ == subset@ { ImmutableSubsetLeafs { subset, leafs } }
+    pub fn len(&self) -> (r: u64) ensures r == self.subset@.len() { self.subset.len() }
+}
+impl Dist {
+    /// the split heuristic (two_means + normalisation): any plane, or a heed error
+    #[verifier::external_body]
+    pub fn create_split<R: Rng>(children: &ImmutableSubsetLeafs, rng: &mut R) -> (r: heed::Result<UVec>) ensures is_heed(r) { unimplemented!() }
+}
+/// src/writer.rs::split_imbalance (f64 arithmetic): uninterpreted
+#[verifier::external_body]
+pub fn split_imbalance(left_indices_len: u64, right_indices_len: u64) -> (r: f64) { unimplemented!() }
+/// iteration over a bitmap (`bitmap.iter()`): ascending ids
+pub struct BmIter { pub seq: Ghost<Seq<u32>>, pub pos: Ghost<int> }
+impl RoaringBitmap {
+    #[verifier::external_body]
+    pub fn iter(&self) -> (r: BmIter) ensures r.seq@ == bm_seq(self@), r.pos@ == 0 { unimplemented!() }
+    /// rule R7d: `RoaringBitmap::from_sorted_iter(vec).unwrap()` panics unless the ids are strictly increasing
+    #[verifier::external_body]
+    pub fn from_sorted_vec_unwrap_(v: Vec<u32>) -> (r: RoaringBitmap)
+        requires forall|i: int, j: int| 0 <= i < j < v@.len() ==> v@[i] < v@[j]
+        ensures forall|x: u32| r@.contains(x) <==> v@.contains(x), r@.len() == v@.len()
+    { unimplemented!() }
+}
+impl BmIter {
+    #[verifier::external_body]
+    pub fn next(&mut self) -> (r: Option<u32>)
+        requires 0 <= old(self).pos@ <= old(self).seq@.len()
+        ensures final(self).seq == old(self).seq,
+            match r { Some(x) => old(self).pos@ < old(self).seq@.len() && x == old(self).seq@[old(self).pos@] && final(self).pos@ == old(self).pos@ + 1,
+                      None => old(self).pos@ == old(self).seq@.len() && final(self).pos == old(self).pos }
+    { unimplemented!() }
+}
